@@ -1,5 +1,5 @@
 //@PROBE file=src/track/store.rs test=verif_probe_store_c09 clauses=C09/ units=store_future_merge,store_c09
-//@BOUND shard counts 1..=3; ids 0..=5; merges over {dest missing, src missing, same id, attribute-merge failure, optimize failure, success} x {remove_src yes/no}; add() on a missing id vs builder
+//@BOUND shard counts 1..=5; ids 0..=5 and wide ids (2^32+1, 2*2^32+2, 7*2^40+3, 0x9e3779b97f4a7c15, u64::MAX-1, u64::MAX); merges over {dest missing, src missing, same id, attribute-merge failure, optimize failure, success} x {remove_src yes/no}; add() on a missing id vs builder
 #[cfg(test)]
 mod verif_probe_store_c09 {
     use super::*;
@@ -53,7 +53,7 @@ mod verif_probe_store_c09 {
     #[test]
     fn verif_probe_store_c09() {
         let mut failures: Vec<String> = vec![];
-        for shards in 1usize..=3 {
+        for shards in 1usize..=5 {
             let ctx = format!("PROBE input: shards={}", shards);
             // ---- map behaviour
             let mut s: S = TrackStore::new(PMetric::default(), PAttrs::default(), NoopNotifier, shards);
@@ -102,6 +102,30 @@ mod verif_probe_store_c09 {
                     Ok(None) => { if remove || peek(&s, 3) != b3 { failures.push(format!("{}: merge_owned(remove={}) changed or dropped the source", ctx, remove)); } }
                     Err(e) => failures.push(format!("{}: merge_owned(remove={}) failed: {}", ctx, remove, e)),
                 }
+            }
+            // ---- ids with bits above bit 31: found in shard id % shards, and merges reach them
+            {
+                let mut sw: S = TrackStore::new(PMetric::default(), PAttrs::default(), NoopNotifier, shards);
+                let wide: [u64; 6] = [(1u64 << 32) + 1, (2u64 << 32) + 2, (7u64 << 40) + 3, 0x9e3779b97f4a7c15, u64::MAX - 1, u64::MAX];
+                for id in wide { let t = mk(&sw, id, &[1.0]); sw.add_track(t).unwrap(); }
+                for id in wide {
+                    if sw.stores[(id % shards as u64) as usize].lock().unwrap().get(&id).is_none() { failures.push(format!("{}: wide id {:#x} not in shard id % shards", ctx, id)); }
+                    let ext = mk(&sw, 70, &[2.0]);
+                    let before = peek(&sw, id);
+                    match sw.merge_external(id, &ext, None, true) {
+                        Ok(()) => { if peek(&sw, id) == before { failures.push(format!("{}: merge_external into stored id {:#x} reports Ok but changed nothing", ctx, id)); } }
+                        Err(e) => failures.push(format!("{}: merge_external into the STORED destination {:#x} fails: {}", ctx, id, e)),
+                    }
+                    let srcid = 900 + (id % 7);
+                    let t = mk(&sw, srcid, &[3.0]); sw.add_track(t).unwrap();
+                    match sw.merge_owned(id, srcid, None, true, true) {
+                        Ok(Some(_)) => { if peek(&sw, srcid).is_some() { failures.push(format!("{}: merge_owned(remove) into {:#x} left the source stored", ctx, id)); } }
+                        other => { failures.push(format!("{}: merge_owned into the STORED destination {:#x} did not succeed: {:?}", ctx, id, other.map(|o| o.map(|t| t.track_id)).map_err(|e| e.to_string()))); let _ = sw.fetch_tracks(&[srcid]); }
+                    }
+                }
+                if sw.shard_stats().iter().sum::<usize>() != wide.len() { failures.push(format!("{}: shard counts {:?} do not sum to the {} stored wide ids", ctx, sw.shard_stats(), wide.len())); }
+                let got = sw.fetch_tracks(&wide);
+                if got.len() != wide.len() { failures.push(format!("{}: fetch_tracks of the wide ids returned {} of {}", ctx, got.len(), wide.len())); }
             }
             // ---- add() on a missing id == building externally and inserting
             let mut s2: S = TrackStore::new(PMetric::default(), PAttrs::default(), NoopNotifier, shards);
